@@ -262,6 +262,10 @@ def wrappers_owned(c):
 
 
 def rel_module(c):
+    return z3.And(*rel_module_parts(c).values())
+
+
+def rel_module_parts(c):
     """IR.modules is a list without repetitions whose items are exactly the modules whose _ir is that IR
     ($modpos: ghost position of an attached module)."""
     m = fresh("m", Int)
@@ -276,14 +280,23 @@ def rel_module(c):
     ml2 = c.get("modules", ref(pi))
     items2 = z3.Select(c.arr("ListWrapper._data#items"), ref(ml2))
     n2 = z3.Select(c.arr("ListWrapper._data#len"), ref(ml2))
-    return z3.And(
-        z3.ForAll([ir], z3.Implies(c.isinst(ir, "IR"), z3.And(
+    return {
+        "rel_module_wiring": z3.ForAll([ir], z3.Implies(c.isinst(ir, "IR"), z3.And(
             is_VRef(ml), kind_is(c, ref(ml), "IR._ModuleList"), c.get("_node", ref(ml)) == VRef(ir), n >= 0))),
-        z3.ForAll([ir, i], z3.Implies(z3.And(c.isinst(ir, "IR"), 0 <= i, i < n),
-                                      z3.And(is_VRef(z3.Select(items, i)), c.isinst(ref(z3.Select(items, i)), "Module"),
-                                             c.get("_ir", ref(z3.Select(items, i))) == VRef(ir)))),
-        z3.ForAll([ir, i, j], z3.Implies(z3.And(c.isinst(ir, "IR"), 0 <= i, i < j, j < n),
-                                         z3.Select(items, i) != z3.Select(items, j))),
-        z3.ForAll([m], z3.Implies(c.isinst(m, "Module"), z3.Or(is_VNone(pi), z3.And(
-            is_VRef(pi), c.isinst(ref(pi), "IR"), 0 <= pos, pos < n2, z3.Select(items2, pos) == VRef(m))))),
-    )
+        "rel_module_items": z3.ForAll([ir, i], z3.Implies(
+            z3.And(c.isinst(ir, "IR"), 0 <= i, i < n),
+            z3.And(is_VRef(z3.Select(items, i)), c.isinst(ref(z3.Select(items, i)), "Module"),
+                   c.get("_ir", ref(z3.Select(items, i))) == VRef(ir)))),
+        "rel_module_nodup": z3.ForAll([ir, i, j], z3.Implies(z3.And(c.isinst(ir, "IR"), 0 <= i, i < j, j < n),
+                                                             z3.Select(items, i) != z3.Select(items, j))),
+        "rel_module_pos": z3.ForAll([m], z3.Implies(c.isinst(m, "Module"), z3.Or(is_VNone(pi), z3.And(
+            is_VRef(pi), c.isinst(ref(pi), "IR"),
+            z3.Or(z3.And(0 <= pos, pos < n2, z3.Select(items2, pos) == VRef(m)), m == pending_module(c)))))),
+    }
+
+
+def pending_module(c):
+    """ghost: a module whose _ir already points to its new IR but which is not yet in that IR's list
+    (between IR._ModuleList._add and the list insertion); -1 outside that window"""
+    g = getattr(c.eng, "ghost", None) or {}
+    return g.get("M_pending", z3.IntVal(-1))
